@@ -425,7 +425,7 @@ def int_clip(x, val_min, val_max):
 def wrap(x, signed, n_word):
 
     m = (1 << n_word)
-    if n_word >= _n_word_max:
+    if n_word >= _n_word_max or np.asarray(x).dtype == object:
         dtype = object
         x = int_array(x).astype(dtype) & (m - 1)
     else:
